@@ -1,4 +1,4 @@
-import BiotiteModel.Proofs.C18Ctab
+import BiotiteModel.Proofs.C18Grid
 import BiotiteModel.Gen.C18
 /-!
 # C18 — property theorems (MOL/SDF files; tables of the RDKit bridge)
@@ -224,6 +224,16 @@ theorem C18_coord_carry_needs_float32 :
     (intRepr q.trunc).length ≤ maxCoordDigits ∧ (padL 10 (fmt4 q)).length = 11 := by
   decide
 
+/-- **The writer's guard is enough for float32 coordinates.**  If the truncated value prints in
+at most 5 characters (`number_of_integer_digits(...) <= 5`, sign included) and the coordinate lies
+on the float32 grid (`F32Grid`: magnitude ≥ 8192 ⇒ denominator one of 1, 2, …, 1024), then the
+value rounded to 4 decimals still has at most 5 (4 after a minus sign) pre-decimal digits
+(`CoordOk`, the hypothesis of `FitsV2000`/`WFMol`) and its `>10.4f` field is exactly 10 wide. -/
+theorem C18_guard_implies_columns (q : Q) (hg : F32Grid q) (hd : (intRepr q.trunc).length ≤ maxCoordDigits) :
+    CoordOk q ∧ (padL 10 (fmt4 q)).length = 10 := by
+  have h := coordOk_of_guard q hg hd
+  exact ⟨h, padL_length_of_le 10 _ (fmt4_length_le q h)⟩
+
 /-! ## `M  CHG` batching -/
 
 /-- **Charge batching.**  The non-zero charges are distributed over `M  CHG` lines of at most 8
@@ -327,13 +337,60 @@ theorem C18_ctab_roundtrip_v2000 (m : Mol) (d : Nat) (ls : List Line) (hw : WFMo
       simp only [this, if_true]
       exact readV2000_write m dc (codeOfBond_lt hdc) hw hn hm
 
+/-- **CTAB round trip, V3000.**  For a well-formed molecule with at least one atom (an empty
+ATOM block is rejected by the reader) and *any* number of atoms and bonds, reading the V3000
+table that was written gives back the same atoms in the same order and the same bonds, through
+the `M  V30` filter, the block scanner, `split()`, the `CHG=` property and the atom-index map. -/
+theorem C18_ctab_roundtrip_v3000 (m : Mol) (d : Nat) (ls : List Line) (hw : WFMol m)
+    (hne : m.atoms ≠ []) (h : writeV3000 m d = .ok ls) :
+    ∃ dc, codeOfBond d = some dc ∧ readCtab ls = .ok (m.rt dc) := by
+  unfold writeV3000 at h
+  split at h
+  · cases h
+  · split at h
+    · cases h
+    · rename_i dc hdc
+      cases h
+      refine ⟨dc, hdc, ?_⟩
+      have hv : getVersion compatLine = "V3000".toList := by decide
+      unfold readCtab
+      simp only [List.singleton_append, List.cons_append, hv]
+      have h1 : ("V3000".toList == "V2000".toList) = false := by decide
+      have h2 : ("V3000".toList == "V3000".toList) = true := by decide
+      simp only [h1, h2, Bool.false_eq_true, if_false, if_true]
+      have := readV3000_write m dc hw hne
+      simpa only [List.singleton_append, List.cons_append] using this
+
+/-- **CTAB round trip.**  Whatever `write_structure_to_ctab` returns for a well-formed, non-empty
+molecule — V2000 or V3000, chosen automatically or explicitly — reads back as the molecule that
+was written (`Mol.rt`: same atoms, order, elements, charges, coordinates to 4 decimals, bonds
+with every expressible type unchanged). -/
+theorem C18_ctab_roundtrip (m : Mol) (d : Nat) (v : Version) (ls : List Line) (hw : WFMol m)
+    (hne : m.atoms ≠ []) (h : writeCtab m d v = .ok ls) :
+    ∃ dc, codeOfBond d = some dc ∧ readCtab ls = .ok (m.rt dc) := by
+  cases v with
+  | auto =>
+    by_cases hc : isV2000Compatible m.atoms.length m.bonds.length = true
+    · simp only [writeCtab, hc, if_true] at h
+      have hb := (isV2000Compatible_iff _ _).mp hc
+      exact C18_ctab_roundtrip_v2000 m d ls hw hb.1 hb.2 h
+    · simp only [writeCtab, hc] at h
+      exact C18_ctab_roundtrip_v3000 m d ls hw hne h
+  | v2000 =>
+    by_cases hc : isV2000Compatible m.atoms.length m.bonds.length = true
+    · simp only [writeCtab, hc] at h
+      have hb := (isV2000Compatible_iff _ _).mp hc
+      exact C18_ctab_roundtrip_v2000 m d ls hw hb.1 hb.2 (by simpa using h)
+    · simp [writeCtab, hc] at h
+  | v3000 => exact C18_ctab_roundtrip_v3000 m d ls hw hne h
+  | unknown => simp [writeCtab] at h
+
 /-! ## Non-vacuity and concrete round trips (evaluated by the kernel)
 
-The general write→read theorems (`C18_ctab_roundtrip`, `C18_key_roundtrip`,
-`C18_metadata_roundtrip`, `C18_records`) are *not* proved in this file — see notes/C18.md; the
-lemmas they need that are already proved are in `Proofs/C18.lean` / `Proofs/C18Sdf.lean`.  The
-examples below run the model's writer and reader on concrete inputs covering both versions, a
-charge outside −3…3, a non-expressible bond type, a rounding tie and the column limits. -/
+The examples below show that the hypotheses of the theorems above (`WFMol`, `FitsV2000`,
+`ValidKey`, `MdOk`, record hypotheses) are met by concrete non-trivial inputs, and run the model's
+writer and reader on them: both versions, a charge outside −3…3, a non-expressible bond type, a
+rounding tie and the column limits. -/
 
 def exMol : Mol :=
   ⟨[⟨⟨false, 9999999, 100⟩, ⟨true, 1, 32⟩, ⟨false, 0, 1⟩, "FE".toList, -15⟩,
@@ -343,6 +400,10 @@ def exMol : Mol :=
 
 example : FitsV2000 exMol ∧ coordDigitsOk exMol = true := by
   refine ⟨⟨?_, ?_⟩, ?_⟩ <;> decide
+example : ∀ q ∈ [(⟨false, 12799999, 128⟩ : Q), ⟨true, 10239999, 1024⟩, ⟨true, 1, 32⟩],
+    F32Grid q ∧ (intRepr q.trunc).length ≤ maxCoordDigits := by decide
+example : WFMol exMol ∧ exMol.atoms ≠ [] := by
+  refine ⟨⟨?_, ?_, ?_⟩, ?_⟩ <;> decide
 example : (writeCtab exMol 0 .auto).toOption.map (·.length) = some 8 := by decide
 example : (writeCtab exMol 0 .v2000).bind readCtab = .ok (exMol.rt 8) := by decide
 example : (writeCtab exMol 1 .v3000).bind readCtab = .ok (exMol.rt 1) := by decide
